@@ -99,8 +99,12 @@ def make_vcf(idx, feats):
     return (nl.join(lines) + nl).encode("utf-8")
 
 
+VALID_MULTI = []
+
+
 def invalid_cases():
     out = []
+    del VALID_MULTI[:]
     out.append(("ics", "empty", b""))
     out.append(("vcf", "empty", b""))
     for i, t in enumerate([b"hello world\r\n", b"<html></html>", b"BEGIN\r\n", b"\x00\x01\x02", b"{\"json\": true}", b"BEGIN:VCALENDAR", b"END:VCALENDAR\r\nBEGIN:VCALENDAR\r\n"]):
@@ -120,6 +124,35 @@ def invalid_cases():
             # xandikos documents \x01 and \x0c as forbidden (and its parser rejects NUL); RFC 5545 forbids all of %x00-08 / %x0A-1F / %x7F
             cls = "control-char" if ch in (b"\x01", b"\x0c") else "rfc5545-only-control-char"
             out.append(("ics", "%s-%s-%02x" % (cls, prop, ch[0]), body))
+    # the forbidden characters xandikos lists, in a TEXT property of EVERY component position of multi-component objects
+    multi = {
+        "master+override": ["BEGIN:VEVENT", "UID:m1", "DTSTAMP:20200101T000000Z", "DTSTART:20200110T100000Z", "RRULE:FREQ=WEEKLY;COUNT=3", "SUMMARY:@1", "END:VEVENT",
+                            "BEGIN:VEVENT", "UID:m1", "DTSTAMP:20200101T000000Z", "RECURRENCE-ID:20200117T100000Z", "DTSTART:20200117T120000Z", "SUMMARY:@2", "END:VEVENT"],
+        "two-alarms": ["BEGIN:VEVENT", "UID:m2", "DTSTAMP:20200101T000000Z", "DTSTART:20200110T100000Z", "SUMMARY:@1",
+                       "BEGIN:VALARM", "ACTION:DISPLAY", "DESCRIPTION:@2", "TRIGGER:-PT15M", "END:VALARM",
+                       "BEGIN:VALARM", "ACTION:DISPLAY", "DESCRIPTION:@3", "TRIGGER:-PT5M", "END:VALARM", "END:VEVENT"],
+        "event+todo": ["BEGIN:VEVENT", "UID:m3", "DTSTAMP:20200101T000000Z", "DTSTART:20200110T100000Z", "SUMMARY:@1", "END:VEVENT",
+                       "BEGIN:VTODO", "UID:m3", "DTSTAMP:20200101T000000Z", "SUMMARY:@2", "END:VTODO"],
+        "timezone+event": ["BEGIN:VTIMEZONE", "TZID:X/Y", "BEGIN:STANDARD", "DTSTART:19701025T030000", "TZOFFSETFROM:+0200", "TZOFFSETTO:+0100", "TZNAME:@1", "END:STANDARD",
+                           "BEGIN:DAYLIGHT", "DTSTART:19700329T020000", "TZOFFSETFROM:+0100", "TZOFFSETTO:+0200", "TZNAME:@2", "END:DAYLIGHT", "END:VTIMEZONE",
+                           "BEGIN:VEVENT", "UID:m4", "DTSTAMP:20200101T000000Z", "DTSTART;TZID=X/Y:20200110T100000", "SUMMARY:@3", "END:VEVENT"],
+        "event+timezone-after": ["BEGIN:VEVENT", "UID:m5", "DTSTAMP:20200101T000000Z", "DTSTART:20200110T100000Z", "SUMMARY:@1", "END:VEVENT",
+                                 "BEGIN:VTIMEZONE", "TZID:X/Y", "BEGIN:STANDARD", "DTSTART:19701025T030000", "TZOFFSETFROM:+0200", "TZOFFSETTO:+0100", "TZNAME:@2", "END:STANDARD", "END:VTIMEZONE"],
+    }
+    for lname, lines in multi.items():
+        npos = sum(1 for l in lines if "@" in l)
+        for pos in range(1, npos + 1):
+            for ch in ("\x01", "\x0c"):
+                body = []
+                for l in lines:
+                    if "@" in l:
+                        k = int(l[l.index("@") + 1:])
+                        l = l[:l.index("@")] + ("bad" + ch + "char" if k == pos else "fine")
+                    body.append(l)
+                data = ("\r\n".join(["BEGIN:VCALENDAR", "VERSION:2.0", "PRODID:-//xv//C14//EN"] + body + ["END:VCALENDAR"]) + "\r\n").encode("utf-8")
+                out.append(("ics", "control-char-in-%s-position-%d-%02x" % (lname, pos, ord(ch)), data))
+        clean = [l[:l.index("@")] + "fine" if "@" in l else l for l in lines]
+        VALID_MULTI.append((lname, ("\r\n".join(["BEGIN:VCALENDAR", "VERSION:2.0", "PRODID:-//xv//C14//EN"] + clean + ["END:VCALENDAR"]) + "\r\n").encode("utf-8")))
     out.append(("vcf", "card-without-begin-end", b"VERSION:3.0\r\nFN:Jo\r\nN:Doe;Jo;;;\r\n"))
     out.append(("vcf", "card-without-end", b"BEGIN:VCARD\r\nVERSION:3.0\r\nFN:Jo\r\nN:Doe;Jo;;;\r\n"))
     out.append(("vcf", "card-without-begin", b"VERSION:3.0\r\nFN:Jo\r\nN:Doe;Jo;;;\r\nEND:VCARD\r\n"))
@@ -236,7 +269,10 @@ def _group(args):
                 st1 = dav.effective_status(r1)
                 after = (s.listing(coll), dir_listing(s.root, coll) if tree else None, s.audit_tag(coll))
                 cls = label.rstrip("0123456789abcdef").rstrip("-") if "control-char" in label else label.rstrip("0123456789").rstrip("-")
-                if "control-char" in cls:
+                if "control-char-in-" in label:
+                    cls = "control-char-in-" + label.split("control-char-in-")[1].rsplit("-position-", 1)[0] + "-not-last" if not label.rsplit("-position-", 1)[1].startswith(str(label.count("@") or 9)) else cls
+                    cls = "control-char-in-multi-component-object"
+                elif "control-char" in cls:
                     cls = cls.split("-char")[0] + "-char"
                 stats["outcomes"].add(("invalid", typ, cls, st1))
                 if st1 in (200, 201, 204):
@@ -309,6 +345,9 @@ def run(tier, workers=None):
             idx += 1
             valid.append(("valid", "vcf", idx, list(feats), make_vcf(idx, feats)))
     invalid = [("invalid",) + c for c in invalid_cases()]
+    for (lname, data) in VALID_MULTI:
+        idx += 1
+        valid.append(("valid", "ics", idx, ["multi:" + lname], data))
     allcases = valid + invalid
     nw = workers or 16
     jobs = []
